@@ -3814,6 +3814,12 @@ where
           }
 
           Ok(())
+        } else if is_ident_nint_data_type(self.state.cddl, ident) {
+          if !i128::from(*i).is_negative() {
+            self.add_error(format!("expected type {}, got {:?}", ident, self.cbor));
+          }
+
+          Ok(())
         } else if ident_numeric_kind(self.state.cddl, ident).is_some_and(NumericKind::admits_int) {
           Ok(())
         } else if is_ident_time_data_type(self.state.cddl, ident) {
